@@ -107,8 +107,10 @@ CLAIMED = {
     "C03": {
         "text": "Coq theorems (props/C03.v) over the hand model of the orchestration (model/Experiment.v): with only aggregated "
                 "metrics the fetch trace is exactly one grouped aggregate query whatever the number of metrics, pairs and rows; "
-                "with row-level metrics exactly one more fetch of exactly the declared columns (+ variant); solve_power: one "
-                "ungrouped aggregate query. Tie: fetch counters on Polars LazyFrame.collect and Ibis Table.to_pyarrow (rows, columns)",
+                "with row-level metrics exactly one more fetch of exactly the declared columns (+ variant); for ANY mixture of metrics "
+                "the trace is the shared reads, the variants fetch only when neither exists, then only calls by metrics the shared "
+                "reads do not serve; solve_power dispatches by power class: at most one ungrouped aggregate query, first, exactly one "
+                "when no metric reads the data itself. Tie: fetch counters on Polars LazyFrame.collect and Ibis Table.to_pyarrow (rows, columns)",
         "note": "trusted: Coq kernel (no axioms), hand model tied by the counter differential only, counters see every "
                 "materialisation path; 'one row per variant' observed, and part of the plan semantics of C01",
         "technique": "Coq proof (induction over the metric list) on a hand trace model; fetch-counter differential on lazy backends",
@@ -118,7 +120,9 @@ CLAIMED = {
         "text": "Coq theorems (props/C12.v): the pair functions and the ValueError guard regenerated from Experiment.analyze give "
                 "exactly the documented pairs (control vs every other variant / all pairs with the smaller id as control, no "
                 "duplicates, guard iff not exactly one pair without all_variants); a Mean/RatioOfMeans entry depends only on the "
-                "statistics the metric declared (count, means, variances, covariances of pairs of different columns). Differential: every entry equals the metric analysed alone, on five backends, "
+                "statistics the metric declared (count, means, variances, covariances of pairs of different columns); the merged request "
+                "(analysis and power analysis) covers every aggregated metric's own request; the power result has one entry per metric "
+                "with a power analysis, in definition order. Differential: every entry equals the metric analysed alone, on five backends, "
                 "with int/str/bool ids; declared statistics/rows of user-defined metrics are exact; solve_power likewise",
         "note": "trusted: Coq kernel + real axioms (agree theorem), exp2coq pair translator, variant ids as integers in the model; "
                 "dispatch and the non-Mean metrics only through the differential",
@@ -176,7 +180,9 @@ CLAIMED = {
     },
     "C02": {
         "text": "Coq theorems (props/C02.v): the exact aggregates are invariant under row permutations and under any change of "
-                "columns a metric does not use; results depend on the declared statistics only. Differential across pandas / "
+                "columns a metric does not use; results depend on the declared statistics only; any builder's plan gives the same result "
+                "rows on any reordering of the table; a chunked table denotes the concatenation of its chunks, so chunk boundaries and "
+                "chunk order are irrelevant. Differential across pandas / "
                 "polars / polars-lazy / pyarrow / ibis-sqlite x row orders x chunkings x extra columns; variant key types",
         "note": "trusted: as C01 and C12; chunking / dtype conversion only through the differential (C02_chunking_partial)",
         "technique": "Coq proof (permutation / extensionality invariance) + cross-backend metamorphic differential",
@@ -195,13 +201,16 @@ CLAIMED = {
     "C16": {
         "text": "Coq theorems (props/C16.v) over the hand model of rendering (exact decimal rendering of the rational a float "
                 "denotes): correct half-even rounding, the relative error bound 0.5*10^(1-s) for s significant digits (division-"
-                "free form), the digit text denotes the rounded value (fixed-point layout), specials / sign / percent, "
-                "right-justification and column widths of to_string, HTML escaping "
-                "(no raw markup, unescape o escape = id). Tie: exact string equality of format_num, to_string and to_html with "
+                "free form), the fuelled decimal-exponent search is floor(log10) for every binary64 magnitude, the digit text denotes the "
+                "rounded value in the fixed-point AND the exponent layout (normalised mantissa also after a carry), the decimals "
+                "re-derived after rounding never cause a second rounding, specials / sign / percent, right-justification and "
+                "column widths of to_string, HTML escaping (no raw markup, unescape o escape = id), dataframe views (model/Views.v): "
+                "columns = union of keys, rows in order, cells = row lookup, nothing lost, absent = null. Tie: exact string equality of format_num, to_string and to_html with "
                 "the model (vm_compute) on thousands of floats incl. rounding boundaries and on random result objects; "
-                "round-trip bound also checked exactly in Q on the real output; views expose the same rows",
+                "round-trip bound also checked exactly in Q on the real output; columns and null cells of to_arrow / to_pandas / "
+                "to_polars = model, every view compared with to_dicts cell by cell; caller-supplied formatter honoured",
         "note": "trusted: Coq kernel (no axioms), hand model tied by string differential; digit generation/parsing and the float "
-                "operations round()/log10/val*100 are idealised (validated for sig <= 6); dataframe views by differential",
+                "operations round()/log10/val*100 are idealised (validated for sig <= 6); pandas / polars / pyarrow constructors by differential",
         "technique": "Coq proof (integer arithmetic, list induction) on a hand rendering model; exact string differential",
         "design": "DESIGN.md section 5, C16",
     },
